@@ -8,3 +8,8 @@ pub mod collections;
 pub mod fmtm;
 pub mod ks;
 pub mod mk;
+
+/// `WIDE` = thorough-tier value ranges (written into the staged copy by the runner).
+pub mod tier {
+    include!(concat!(env!("CARGO_MANIFEST_DIR"), "/src/verif_tier.rs"));
+}
